@@ -17,7 +17,7 @@ from fimmc.topo import Raw, NN, COMP, NS, CP, LINK
 LEVEL = 'exploration'
 world.install_uuid_seam()
 DELEG_PROPS = ('LabelDelegations', 'CapacityDelegations')
-MENU_Q = ('none', 'L@d1', 'C@d1', 'LC@d1', 'LC@d2', 'L@d1,C@d2', 'LC@d1&d2', 'pooldef@d1')
+MENU_Q = ('none', 'L@d1', 'C@d1', 'LC@d1', 'LC@d2', 'L@d1,C@d2', 'LC@d1&d2', 'pooldef@d1', 'poolref@d1')
 MENU_T = ('none', 'L@d1', 'LC@d1', 'LC@d2', 'L@d1,C@d2', 'LC@d1&d2')
 
 
@@ -160,6 +160,6 @@ def run(report):
                       rule='substrate model (worker with NIC, stitch switch + service + ports, patch links; variant 1 adds a second '
                            'worker, a facility and an inter-switch link) x EVERY vector of per-element delegation choices over the '
                            'delegable elements (none, label-only, capacity-only, both, other id, mixed ids, two ids on one node, pool '
-                           'definition); each returned model judged on 7 clauses from raw snapshots')
+                           'definition, pool reference); each returned model judged on 7 clauses from raw snapshots')
     report.require(g['outcomes'].get('2-partitions', 0) > 0 and g['outcomes'].get('1-partitions', 0) > 0, 'one and two partitions')
     report.assumptions.append('extra kept nodes are allowed by the statement and not flagged; in-memory backend as the property states')
